@@ -83,6 +83,40 @@ def gen_flow(tier: str, rng: random.Random) -> Iterator[Dict[str, Any]]:
                     steps.append({"s": "dt", "d": 0.01})
                     yield h2_script(steps, apps, "h2/flow/%d/%d/%d-%d/%s" % (nstreams, W, total, chunk, plan),
                                     settings={4: W}, autoack=False, maxchunk=chunk)
+    # boundary: the response fits the window exactly (no credit ever arrives), empty bodies at window 0,
+    # body-less statuses at window 0, end-of-body sent separately after the data has been flushed
+    for W in (0, 1, 100, 16384, 65535):
+        for total in sorted(set([0, W, max(W - 1, 0)])):
+            if total > 65535:
+                continue
+            for style in ("final-with-data", "separate-empty-final", "no-body-204"):
+                if style == "no-body-204" and total:
+                    continue
+                for exact_credit in (False, True):
+                    if W == 0 and total == 0 and exact_credit:
+                        continue
+                    prog: List[Any] = [["recv_body"]]
+                    status = 204 if style == "no-body-204" else 200
+                    prog.append(["send", {"type": "http.response.start", "status": status, "headers": []}])
+                    if style == "final-with-data":
+                        prog.append(["send", {"type": "http.response.body", "pat": [101, 0, total], "more": False}])
+                    elif style == "separate-empty-final":
+                        if total:
+                            prog.append(["send", {"type": "http.response.body", "pat": [101, 0, total], "more": True}])
+                        prog.append(["gate"])
+                        prog.append(["send", {"type": "http.response.body", "more": False}])
+                    else:
+                        prog.append(["send", {"type": "http.response.body", "more": False}])
+                    prog.append(["recv_disc"])
+                    iw = 0 if exact_credit else W
+                    steps = [build.h2_headers(1, 1, "GET", toks=[["/exact", "/exact"]]), {"s": "dt", "d": 0.01}]
+                    if exact_credit and W:
+                        steps.append({"s": "h2", "op": "wupd", "stream": 1, "n": W})
+                        steps.append({"s": "dt", "d": 0.01})
+                    steps.append({"s": "go", "app": "1", "n": 1})
+                    steps.append({"s": "dt", "d": 0.01})
+                    yield h2_script(steps, {"1": prog}, "h2/flow-exact/%d/%d/%s/%s" % (W, total, style, exact_credit),
+                                    settings={4: iw}, autoack=False, maxchunk=max(total, 1))
     # priorities: PRIORITY before HEADERS, dependencies, exclusive, reprioritisation while blocked
     for variant in range(6 if tier == "quick" else 24):
         steps = []
